@@ -332,6 +332,14 @@ def install(world: World):
             fs.files.setdefault(path, bytearray())
             world.log({"e": "open_ab"})
             return AppendFile(world, path)
+        if mode == "wb":
+            # create-or-TRUNCATE.  On a missing or empty file it is indistinguishable from the append-open the model knows;
+            # on a file that holds bytes it destroys them, which no action of the specification does
+            world.yield_point("open_ab")
+            had = len(fs.files.get(path, b""))
+            fs.files[path] = bytearray()
+            world.log({"e": "open_ab"} if had == 0 else {"e": "truncated_by_open", "lost_bytes": had})
+            return AppendFile(world, path)
         if mode == "rb":
             world.yield_point("open_rb")
             if path not in fs.files:
